@@ -275,7 +275,10 @@ func projectColumns(selectList sql.SelectList, qfields storage.Fields, rows []*s
 				field = &storage.Field{Column: "count(*)"}
 			}
 		case sql.ColumnReference:
-			field = qfields[lookup[elem]]
+			// copy the field: an alias must not rename the source
+			// column, which may be listed more than once
+			fieldCopy := *qfields[lookup[elem]]
+			field = &fieldCopy
 		default:
 			field = &storage.Field{Column: "?"}
 		}
